@@ -341,9 +341,37 @@ def _absorb_continue(block: List[ast.stmt], cont: List[ast.stmt]) -> List[ast.st
     return out + cont
 
 
+def _append_loops(stmts: List[ast.stmt]) -> List[ast.stmt]:
+    """`xs = []` directly followed by `for v in IT: xs.append(E)`  ->  `xs = [E for v in IT]`."""
+    out: List[ast.stmt] = []
+    i = 0
+    while i < len(stmts):
+        st = stmts[i]
+        nxt = stmts[i + 1] if i + 1 < len(stmts) else None
+        if (
+            isinstance(st, ast.Assign) and len(st.targets) == 1 and isinstance(st.targets[0], ast.Name) and isinstance(st.value, ast.List) and not st.value.elts
+            and isinstance(nxt, ast.For) and not nxt.orelse and len(nxt.body) == 1 and isinstance(nxt.body[0], ast.Expr) and isinstance(nxt.body[0].value, ast.Call)
+            and isinstance(nxt.body[0].value.func, ast.Attribute) and nxt.body[0].value.func.attr == "append" and isinstance(nxt.body[0].value.func.value, ast.Name)
+            and nxt.body[0].value.func.value.id == st.targets[0].id and len(nxt.body[0].value.args) == 1
+            and not any(isinstance(x, ast.Name) and x.id == st.targets[0].id for x in ast.walk(nxt.body[0].value.args[0])) and not any(isinstance(x, ast.Name) and x.id == st.targets[0].id for x in ast.walk(nxt.iter))
+        ):
+            comp = ast.ListComp(elt=nxt.body[0].value.args[0], generators=[ast.comprehension(target=nxt.target, iter=nxt.iter, ifs=[], is_async=0)])
+            new = ast.Assign(targets=[st.targets[0]], value=comp)
+            ast.copy_location(new, st)
+            ast.copy_location(comp, st)
+            ast.fix_missing_locations(new)
+            out.append(new)
+            i += 2
+            continue
+        out.append(st)
+        i += 1
+    return out
+
+
 def _restructure(stmts: List[ast.stmt], in_loop: bool) -> List[ast.stmt]:
     """`if T: A; continue` + rest (directly in a loop body)  ->  `if T: A else: rest`;
     `if not X: A else: B`  ->  `if X: B else: A`.  Same paths, the shapes the rules read."""
+    stmts = _append_loops(stmts)
     out: List[ast.stmt] = []
     for i, st in enumerate(stmts):
         if isinstance(st, ast.For) and isinstance(st.iter, ast.Call) and isinstance(st.iter.func, ast.Name) and st.iter.func.id == "enumerate" and len(st.iter.args) == 1 and not st.iter.keywords and isinstance(st.iter.args[0], ast.Name) and isinstance(st.target, ast.Tuple) and len(st.target.elts) == 2 and all(isinstance(e_, ast.Name) for e_ in st.target.elts) and not any(isinstance(c_, ast.Call) and isinstance(c_.func, ast.Attribute) and c_.func.attr in ("append", "extend", "insert", "pop", "remove", "clear") and isinstance(c_.func.value, ast.Name) and c_.func.value.id == st.iter.args[0].id for b_ in st.body for c_ in ast.walk(b_)):
